@@ -69,7 +69,7 @@ func ParseMultiSigContract(script []byte) (int, [][]byte, bool) {
 		if instr != opcode.PUSHDATA1 {
 			break
 		}
-		if len(param) < 33 {
+		if len(param) != 33 {
 			return nsigs, nil, false
 		}
 		pubs = append(pubs, param)
